@@ -503,6 +503,8 @@ func replayCase(sub string, raw json.RawMessage) string {
 			return "bad replay: " + err.Error()
 		}
 		return checkSync(c)
+	case sub == "fromjson" || sub == "fromjson-random":
+		return replayFromJSON(raw)
 	case sub == "regex" || sub == "regex-random":
 		return replayRegex(raw)
 	case sub == "sync-ast":
@@ -537,6 +539,8 @@ func TestC03(t *testing.T) {
 	runSync(t)
 	universeIntact(t, "sync")
 	runRegex(t)
+	runFromJSON(t)
+	universeIntact(t, "fromjson")
 }
 
 // universeIntact: the shared universe values are passed to gojq by reference;
